@@ -170,6 +170,7 @@ func (s *Stream) next(ctx context.Context, block bool) bool {
 
 		// get oplog
 		oplog := s.oplog()
+		vhookStream("next.read", s)
 
 		// get index
 		index := -1
@@ -240,6 +241,7 @@ func (s *Stream) next(ctx context.Context, block bool) bool {
 		// run concurrently with the wait
 		signal := s.signal
 		s.mutex.Unlock()
+		vhookStream("next.wait", s)
 
 		// await next event
 		select {
